@@ -34,6 +34,8 @@ def streams():
         'three_connections': '\n'.join(three) + '\n',
         'unterminated': '\n'.join(base['s4_cur_server']),
         'empty': '',
+        'odd_separators': base['s1_mid'][0] + '\nform\x0cfeed and \x1c \x85 inside\n' +
+                          '[5000000.100] wl_registry@2.global(1, "line\u2028sep \u2029 in a string", 4)\n' + base['s1_mid'][2] + '\n',
     }
     big = []
     for i in range(700):
@@ -162,7 +164,7 @@ def gen_modes(tier):
             yield {'stream': name, 'supress': supress, 'seeds': seeds, 'status': 0}
     for wd in ('0', 'server', ''):
         yield {'stream': 'clean', 'supress': False, 'seeds': [0], 'status': 0, 'parent_wd': wd}
-    statuses = [1, 2, 37, 255] if tier == 'quick' else list(range(1, 256))
+    statuses = [1, 2, 37, 99, 126, 127, 255] if tier == 'quick' else list(range(1, 256))
     for st in statuses:
         yield {'stream': 'unterminated' if st % 2 else 'clean', 'supress': False, 'seeds': [0], 'status': st}
 
